@@ -119,6 +119,36 @@ func WConfig(prop, tier string) *Config {
 		} else {
 			cfg.Phases = []Phase{{Name: "full-depth2", Roots: roots01, Ops: ops, Depth: 2, Dev: 2}}
 		}
+	case "C15":
+		ops := []string{"swap_in_p1_usdc_atom_L", "swap_out_p2_elys_usdc_L", "swap_fail_minout_p1", "join_p1_all_t1", "join_p2_all_t1", "exit_p1_10pct_lp1", "exit_p2_half_lp1", "exit_p2_all_t1", "create_pool_lp1",
+			"perp_open_long_t1", "perp_open_short_t2", "perp_close_full_t1", "perp_bot_close_all", "llp_open_t1_x3", "llp_close_full_t1", "llp_bot_close_all", "bond_lp1_L", "unbond_lp2_half", "unbond_lp2_all",
+			"mc_claim_lp1", "commit_eden_lp1", "vest_eden_lp1", "cancel_vest_lp1", "claim_vesting_lp1", "vest_now_lp1", "stake_elys_lp1", "unstake_elys_lp1", "estaking_withdraw_lp1", "send_elys_to_burn_addr",
+			"fee_tx_uatom", "fee_tx_uelys", "price_atom_2", "price_atom_12", "gap_1h", "gap_1d", "gap_30d", "nofeed", "empty"}
+		cfg.Oracles = []*Oracle{OracleC15Supply(), OracleC15()}
+		if thorough {
+			cfg.Phases = []Phase{{Name: "full-depth3", Roots: roots012, Ops: ops, Depth: 3, Dev: 3}}
+		} else {
+			cfg.Phases = []Phase{{Name: "full-depth2", Roots: roots012, Ops: ops, Depth: 2, Dev: 2}}
+		}
+	case "C18":
+		ops := []string{"swap_in_p1_usdc_atom_D", "swap_in_p1_usdc_atom_XL", "swap_out_p1_atom_usdc_D", "swap_in_p2_elys_usdc_D", "swap_fail_minout_p1", "join_p1_single_atom_dust_t2", "exit_p2_allbut1_lp1", "exit_p1_single_atom_lp1",
+			"perp_open_long_t1_dust", "perp_open_short_t2_dust", "perp_open_long_t3_x5", "perp_close_full_t1", "perp_bot_close_all", "llp_open_t3_dust", "llp_open_t2_x5", "llp_close_allbut1_t1", "llp_bot_close_all", "unbond_lp2_all", "bond_lp1_D",
+			"fee_tx_uusdc", "fee_tx_uatom", "fee_tx_uelys", "mc_claim_lp1", "claim_vesting_lp1", "vest_eden_lp1", "unstake_elys_lp1", "send_elys_to_burn_addr",
+			"price_atom_2", "price_atom_12", "nofeed", "nofeed_2d", "gap_1h", "gap_2d", "gap_8d", "gap_40d", "empty"}
+		cfg.Oracles = []*Oracle{OracleC18()}
+		cfg.BlockFailure = true
+		cfgOps := []string{}
+		for _, v := range AllVariants {
+			if v != "" {
+				cfgOps = append(cfgOps, "cfg_"+v)
+			}
+		}
+		all := append(append([]string{}, cfgOps...), ops...)
+		if thorough {
+			cfg.Phases = []Phase{{Name: "configs+ops-depth3", Roots: roots01, Ops: all, Depth: 3, Dev: 3}}
+		} else {
+			cfg.Phases = []Phase{{Name: "configs+ops-depth2", Roots: roots01, Ops: all, Depth: 2, Dev: 3}}
+		}
 	default:
 		return nil
 	}
